@@ -25,12 +25,12 @@ def absent : Name := 1
 
 /-- the default registry, numbers as the bit patterns of the doubles the code holds -/
 def ctxBits : Ctx Nat :=
-  { globals := parserGlobalsC, inv := invTree, pre := prefixesT, lut := lutT }
+  { globals := parserGlobalsC, inv := invTree, rewritten := rewrittenT, pre := prefixesT, lut := lutT }
 
 /-- the custom registry of the translator plugin (`make_custom_registry`): the rows it added or
     modified shadow the default rows -/
 def customCtxBits : Ctx Nat :=
-  { globals := parserGlobalsC, inv := invTree, pre := prefixesT, lut := customLutT }
+  { globals := parserGlobalsC, inv := invTree, rewritten := rewrittenT, pre := prefixesT, lut := customLutT }
 
 /-- the default registry at a numeric carrier -/
 def ctx (K : Type) [OfBits K] : Ctx K := ctxBits.mapK OfBits.ofBits
@@ -71,9 +71,6 @@ def symOf : Option Reading → Name
   | _ => absent
 
 def refVerdict (s : Name) : Ref.C14.Verdict := Ref.C14.verdict charTable baseTreeC s
-
-/-- the guard of the partial theorem (known finding `unusable|word+alias|°`) -/
-def excluded (s : Name) : Bool := Ref.C14.isWordPrefixedDegreeC charTable s
 
 /-- the search tree holds exactly this row for the name -/
 def treeOk (r : NameRow) : Bool :=
@@ -121,11 +118,11 @@ def customOk (r : NameRow) : Bool :=
     | _ => false)
 
 /-- all of the above with the reference evaluated once (what the chunk obligations decide) -/
-def nameCheck (full : Bool) (r : NameRow) : Bool :=
+def nameCheck (r : NameRow) : Bool :=
   treeOk r &&
   match refVerdict r.name with
   | .unique k c =>
-    (readingMatches (stringReading ctxBits r.name) k c || (!full && excluded r.name))
+    readingMatches (stringReading ctxBits r.name) k c
     && (match unitSymbolsAttr ctxBits r.name with
         | u => readingMatches u k c && Nat.beq r.usSym (symOf u)
                && (if memN r.name shadowedC
@@ -135,11 +132,9 @@ def nameCheck (full : Bool) (r : NameRow) : Bool :=
         | u => Nat.beq r.customSym (symOf u) && (underscored r.name || readingMatches u k c))
   | _ => false
 
-/-- the per-name statement with the explicit guard -/
-def nameOk (r : NameRow) : Bool := nameCheck false r
-
-/-- the full per-name statement -/
-def nameOkFull (r : NameRow) : Bool := nameCheck true r
+/-- the full per-name statement (no guard: the word-prefixed °C spellings parse since the `fix:`
+    that looks documented names up under their rewritten spelling) -/
+def nameOk (r : NameRow) : Bool := nameCheck r
 
 /-- `j`-th slice of length `n` (the kernel's cost grows faster than linearly with the size of one
     obligation, so each chunk is decided in several slices) -/
@@ -149,12 +144,6 @@ def namesChunkOk (i : Nat) : Bool := (rowsChunk i).all nameOk
 
 /-- slice `j` (of 4, 64 rows each) of chunk `i` -/
 def namesSliceOk (i j : Nat) : Bool := (sliceOf (rowsChunk i) j 64).all nameOk
-
-/-- an excluded name really is unusable as a string (the exclusion cannot outlive the finding) -/
-def exclusionFails (r : NameRow) : Bool :=
-  !(excluded r.name) || (stringReading ctxBits r.name).isNone
-
-def exclusionsChunkOk (i : Nat) : Bool := (rowsChunk i).all exclusionFails
 
 /-! ### prefixes on non-prefixable units -/
 
